@@ -75,7 +75,8 @@ pub mod lab {
     pub const WEAK_BEFORE_ASSUME_INIT: u32 = 58;
     pub const CLONE_VIA_UNINIT_TYPE: u32 = 59;
     pub const DTOR_TRY_UNWRAP: u32 = 61;
-    pub const NAMES: [&str; 62] = [
+    pub const DEAD_HANDLE_DROPPED_LATER: u32 = 62;
+    pub const NAMES: [&str; 63] = [
         "group>=2_collected",
         "group>=3_collected",
         "zero_count_death_with_records",
@@ -138,6 +139,7 @@ pub mod lab {
         "destructor_cloned_through_the_maybeuninit_typed_handle",
         "",
         "destructor_called_try_unwrap_on_a_stored_handle_to_an_outsider",
+        "handle_to_a_destroyed_peer_moved_out_by_a_destructor_and_dropped_after_the_teardown",
     ];
 }
 
@@ -186,6 +188,8 @@ pub struct Cfg {
     pub allow_consume: bool,
     /// destructors may give a stored handle to an outsider up through try_unwrap
     pub dtor_unwrap: bool,
+    /// destructors may move a stored handle out of their value instead of dropping it
+    pub dtor_stash: bool,
     /// make_mut may be called in place on a handle stored inside a value
     pub slot_consume: bool,
     /// the payload's Clone (called by make_mut) runs the value's action script
@@ -206,6 +210,9 @@ pub struct World {
     pub quarantine: RefCell<Vec<ManuallyDrop<Rc<Node>>>>,
     pub model: RefCell<Model>,
     pub addr2oid: RefCell<Vec<(usize, Oid)>>,
+    /// handles to destroyed peers that a destructor moved out of its value: the
+    /// program drops them after the teardown has finished (must be inert)
+    pub dead_stash: RefCell<Vec<LoggedRc>>,
     pub labels: Cell<u64>,
     pub next_clone_id: Cell<Oid>,
     pub panic_armed: Cell<bool>,
@@ -240,6 +247,7 @@ pub fn install_world(cfg: Cfg) {
             quarantine: RefCell::new(vec![]),
             model: RefCell::new(Model::default()),
             addr2oid: RefCell::new(vec![]),
+            dead_stash: RefCell::new(vec![]),
             labels: Cell::new(0),
             next_clone_id: Cell::new(0),
             panic_armed: Cell::new(true),
